@@ -279,7 +279,13 @@ impl ClientLoop {
             self.decode,
         )?;
 
-        io.write(bytes, self.decode.physical).await?;
+        // A peer that does not read eventually blocks the write. The request's timeout bounds the
+        // transmission as well: a frame that could not be written in that time leaves the stream
+        // unusable, so this is an I/O error that ends the session (and lets queued commands run).
+        match tokio::time::timeout(request.timeout, io.write(bytes, self.decode.physical)).await {
+            Ok(res) => res?,
+            Err(_) => return Err(RequestError::Io(std::io::ErrorKind::TimedOut)),
+        }
 
         let deadline = Instant::now() + request.timeout;
 
